@@ -306,7 +306,7 @@ impl io::Write for ScriptWriter {
 // ------------------------------------------------------------------------------------------- execution
 
 #[derive(Clone, Debug, PartialEq)]
-pub enum Res { Ok, Validation(Vec<String>), Io(bool) }
+pub enum Res { Ok, Validation(Vec<String>), Io(bool), Panicked }
 
 /// Unescape a Rust `{:?}` list of strings: `["a", "b\"c"]`.
 pub fn parse_debug_list(s: &str) -> Vec<String> {
@@ -352,14 +352,15 @@ pub fn parse_debug_list(s: &str) -> Vec<String> {
 pub fn exec_call(f: &mut Formatter, call: &Call) -> (Res, Vec<u8>) {
     let entry = ScriptEntry::new(&call.items);
     let mut w = ScriptWriter::new(&call.script);
-    let r = match call.rate() {
+    let r = crate::common::catch(|| match call.rate() {
         None => f.format(&entry, &mut w),
         Some(rate) => f.format_with_sample_rate(&entry, &mut w, rate),
-    };
+    });
     let res = match r {
-        Ok(()) => Res::Ok,
-        Err(IoStreamError::Validation(e)) => Res::Validation(parse_debug_list(&format!("{:?}", e))),
-        Err(IoStreamError::Io(e)) => Res::Io(e.kind() == io::ErrorKind::WriteZero),
+        None => Res::Panicked,
+        Some(Ok(())) => Res::Ok,
+        Some(Err(IoStreamError::Validation(e))) => Res::Validation(parse_debug_list(&format!("{:?}", e))),
+        Some(Err(IoStreamError::Io(e))) => Res::Io(e.kind() == io::ErrorKind::WriteZero),
     };
     (res, w.received)
 }
@@ -491,6 +492,7 @@ pub fn enc_res(r: &Res, out: &[u8], sorted: bool) -> Sx {
         Res::Ok => Sx::L(vec![sx::n(0u8)]),
         Res::Validation(m) => { let mut m: Vec<Vec<u8>> = m.iter().map(|x| x.as_bytes().to_vec()).collect(); m.sort(); Sx::L(vec![sx::n(1u8), Sx::L(m.into_iter().map(Sx::B).collect())]) }
         Res::Io(z) => Sx::L(vec![sx::n(2u8), sx::boolean(*z)]),
+        Res::Panicked => Sx::L(vec![sx::n(3u8)]),
     };
     let o = if sorted {
         let mut lines: Vec<Vec<u8>> = out.split_inclusive(|&b| b == b'\n').map(|l| l.to_vec()).collect();
